@@ -30,7 +30,7 @@ PROP = "C15"
 
 def async_scenarios(wd, quick, seed):
     out, seen = [], set()
-    for cfg, n in (("MC_AsyncPages_sim.cfg", 120 if quick else 1500), ("MC_AsyncPages_sim2.cfg", 80 if quick else 1500)):
+    for cfg, n in (("MC_AsyncPages_sim.cfg", 120 if quick else 500), ("MC_AsyncPages_sim2.cfg", 80 if quick else 400)):
         for s in vf.emit_scenarios(wd, "MC_AsyncPages.tla", cfg, minimum=20, simulate=n, depth=200, seed=seed):
             k = json.dumps(s, sort_keys=True)
             if k in seen:
@@ -49,7 +49,7 @@ def run_async(vh, wd, scenarios, seed, name, reps, burst=1, hang_ms=5000):
             sp = os.path.join(wd, f"{name}.{restarts}.scenarios.ndjson")
             vf.write_ndjson(sp, remaining)
             p = subprocess.run([vh, "c15async", "--seed", str(seed), "--scenarios", sp, "--reps", str(reps), "--burst", str(burst),
-                                "--hang-ms", str(hang_ms), "--first-trace", str(first_t)], capture_output=True, text=True, timeout=3000,
+                                "--hang-ms", str(hang_ms), "--first-trace", str(first_t)], capture_output=True, text=True, timeout=7200,
                                env=dict(os.environ, GORACE="halt_on_error=0 exitcode=0"))
             lines = [ln for ln in p.stdout.split("\n") if ln.endswith("}")]
             for ln in lines:
@@ -240,8 +240,9 @@ def run(tier, seed):
 
     # ---- async protocol
     ascs = async_scenarios(wd, quick, seed)
-    reps = 2 if quick else 6
-    tp, races, stderr = run_async(vh, wd, ascs, seed, "async", reps, burst=10 if quick else 40)
+    # measured: 0.25 s per behaviour and repetition at burst 10; the thorough tier is sized for about 25 minutes
+    reps = 2 if quick else 4
+    tp, races, stderr = run_async(vh, wd, ascs, seed, "async", reps, burst=10 if quick else 20)
     by_id = {s["id"]: s for s in ascs}
     inits = {e["t"]: e for e in vf.read_ndjson(tp) if e["ev"] == "Init"}
     consumed = traces = tstates = 0
